@@ -252,6 +252,23 @@ Proof.
       cbn [app] in *. apply chain_cons; assumption.
 Qed.
 
+Lemma chainb_sound : forall l, chainb l = true -> chain l.
+Proof.
+  induction l as [|r tl IH]; intros H; [discriminate|].
+  cbn [chainb] in H. destruct tl as [|r2 tl'].
+  - destruct (cr_txs r) as [|t [|]] eqn:Et; try discriminate.
+    destruct (cr_next r) eqn:En; [discriminate|]. eapply chain_one; eassumption.
+  - apply andb_true_iff in H. destruct H as [L C]. apply chain_cons; [|apply IH; exact C].
+    unfold linkb in L.
+    destruct (cr_txs r) as [|t1 [|]] eqn:E1; try discriminate.
+    destruct (cr_txs r2) as [|t2 [|]] eqn:E2; try discriminate.
+    destruct (cr_next r) as [n|] eqn:E3; try discriminate.
+    destruct (cr_ref r2) as [p|] eqn:E4; try discriminate.
+    apply andb_true_iff in L. destruct L as [L Lt]. apply andb_true_iff in L. destruct L as [Ln Lp].
+    apply N.eqb_eq in Ln. apply N.eqb_eq in Lp. apply Z.ltb_lt in Lt. subst n p.
+    exists t1, t2. repeat split; assumption.
+Qed.
+
 Lemma step_chain : forall h o, chain h -> co_genesis o = false -> chain (apply_cop h o).
 Proof.
   intros h o H Hg. unfold apply_cop, write_consensus_snapshot.
